@@ -270,8 +270,12 @@ def frame_case(draw, max_rows=6, max_cols=4, allow_index=True, allow_dup_labels=
         free = [x for x in NAMES + ["zz"] if x not in names and x not in [c["name"] for c in scols]]
         if not free:
             break
-        scols.append({"name": draw(st.sampled_from(free)), "dtype": draw(st.sampled_from(["int64", "str", None])),
-                      "nullable": False, "unique": False, "checks": [], "required": draw(st.integers(0, 2)) == 0})
+        absent = {"name": draw(st.sampled_from(free)), "dtype": draw(st.sampled_from(["int64", "str", None])),
+                  "nullable": False, "unique": False, "checks": [], "required": draw(st.integers(0, 2)) == 0}
+        if absent["dtype"] and draw(st.integers(0, 2)) == 0:
+            # (a default on a column that is not there has nothing to fill - and nothing to trip over)
+            absent["default"] = 1 if absent["dtype"] == "int64" else "x"
+        scols.append(absent)
     # a regex column replaces / adds
     if names and draw(st.integers(0, 4)) == 0:
         rx = draw(st.sampled_from(REGEXES))
